@@ -44,9 +44,14 @@ def build_harnesses(b):
     return {32: h32, 7: h7}
 
 
-def run_harness(exe, lines, rx, wdir, tag, per_line_timeout=60):
-    """Run the driver over the work list; restart after a fault/hang so that one bad operation
-    does not hide the rest.  Returns the path of the ndjson trace (one event per line of work)."""
+MAX_FAULTS = 25
+
+
+def run_harness(exe, w, rx, wdir, tag):
+    """Run the driver over the work list `w`; restart after a fault/hang so that one bad operation
+    does not hide the rest (after MAX_FAULTS of them the remaining operations are dropped from the
+    list).  Returns the path of the ndjson trace (one event per remaining line of work)."""
+    lines = w.lines
     wl = os.path.join(wdir, "wl-%s.txt" % tag)
     out = os.path.join(wdir, "tr-%s.ndjson" % tag)
     with open(wl, "w") as fh:
@@ -54,46 +59,43 @@ def run_harness(exe, lines, rx, wdir, tag, per_line_timeout=60):
     if os.path.exists(out):
         os.unlink(out)
     first = 1
-    restarts = 0
+    faults = 0
     while first <= len(lines):
-        budget = 120 + per_line_timeout
         try:
             p = subprocess.run([exe, wl, out, str(first)], stdout=subprocess.DEVNULL, stderr=subprocess.PIPE,
-                               timeout=max(budget, len(lines) // 200))
+                               timeout=600 + len(lines) // 100)
             rc = p.returncode
         except subprocess.TimeoutExpired:
             rc = "timeout"
         if rc == 0:
             break
-        restarts += 1
-        if restarts > 200:
-            raise vlib.MachineryError("bigint_drv keeps dying (%s)" % tag)
-        # which line was in progress?  the last complete event tells
-        done = first - 1
-        last = None
+        faults += 1
         with open(out, "rb") as fh:
             data = fh.read()
         good = data[:data.rfind(b"\n") + 1] if b"\n" in data else b""
         evs = [l for l in good.split(b"\n") if l.strip()]
+        last = None
         if evs:
             try:
                 last = json.loads(evs[-1].decode())
             except ValueError:
                 last = None
-        if rc == 70 and last and last.get("ev") == "Fault":
+        if rc in (70, 71) and last and last.get("ev") in ("Fault", "Hang"):
             done = last["ln"]
-            with open(out, "wb") as fh:
-                fh.write(b"\n".join(evs) + b"\n")
         elif rc == "timeout" or (isinstance(rc, int) and rc < 0):
-            n_ok = last["ln"] if last else first - 1
-            done = n_ok + 1
+            done = (last["ln"] if last else first - 1) + 1
             op = lines[done - 1].split()[0] if done <= len(lines) else "?"
-            ev = {"ev": "Hang" if rc == "timeout" else "Fault", "op": op, "ln": done, "rx": rx, "signal": 0 if rc == "timeout" else -rc}
-            with open(out, "wb") as fh:
-                fh.write(b"\n".join(evs + [json.dumps(ev).encode()]) + b"\n")
+            evs.append(json.dumps({"ev": "Hang" if rc == "timeout" else "Fault", "op": op, "ln": done, "rx": rx,
+                                   "signal": 0 if rc == "timeout" else -rc}).encode())
         else:
-            raise vlib.MachineryError("bigint_drv failed rc=%s: %s" % (rc, p.stderr.decode(errors="replace")[-500:] if rc != "timeout" else ""))
+            raise vlib.MachineryError("bigint_drv failed rc=%s: %s" % (rc, p.stderr.decode(errors="replace")[-500:]))
+        with open(out, "wb") as fh:
+            fh.write(b"\n".join(evs) + b"\n")
         first = done + 1
+        if faults >= MAX_FAULTS and first <= len(lines):
+            del w.lines[done:]
+            del w.fam[done:]
+            break
     return out
 
 
@@ -153,18 +155,21 @@ def case_key(ev, fam):
 
 
 def validate_worklists(chk, worklists, exes, wdir, label):
-    """worklists: {rx: WorkList}.  Runs the drivers, validates with parallel TLC processes,
-    returns list of failing events (dicts with line text)."""
+    """worklists: {rx: WorkList}.  Runs the drivers, validates all chunks with parallel TLC
+    processes (each -workers 1), returns the failing events (dicts with the work-list line)."""
     fails = []
+    jobs = []          # (rx, chunk path)
+    info = {}
     for rx, w in worklists.items():
+        if not w.lines:
+            continue
         t0 = time.time()
-        tr = run_harness(exes[rx], w.lines, rx, wdir, "%s-%d" % (label, rx))
+        tr = run_harness(exes[rx], w, rx, wdir, "%s-%d" % (label, rx))
         t_h = time.time() - t0
-        nchunks = max(1, min(NPROC * 2, (len(w.lines) + 2999) // 3000))
+        nchunks = max(1, min(NPROC, (len(w.lines) + 5999) // 6000))
         chunks, nev = split_trace(tr, wdir, "%s-%d" % (label, rx), nchunks)
         if nev != len(w.lines):
             raise vlib.MachineryError("driver wrote %d events for %d operations (%s, radix %d)" % (nev, len(w.lines), label, rx))
-        byln = {}
         stats = collections.Counter()
         paths = collections.Counter()
         with open(tr) as fh:
@@ -172,47 +177,110 @@ def validate_worklists(chk, worklists, exes, wdir, label):
                 if not line.strip():
                     continue
                 ev = json.loads(line)
-                byln[ev["ln"]] = ev
                 fam = w.fam[ev["ln"] - 1]
                 chk.case(case_key(ev, fam))
                 stats[ev.get("op", "?")] += 1
                 for p in ev.get("paths", ()):
                     paths[p] += 1
+                if ev["ln"] in w.meta and "paths" in ev and ev.get("op") == "divide":
+                    want = set(w.meta[ev["ln"]]) & set(COMMON_LABELS)
+                    got = set(ev["paths"]) & set(COMMON_LABELS)
+                    dr = chk.extra.setdefault("drift", {}).setdefault("model_path_vs_radix7_build", {"same": 0, "different": 0})
+                    dr["same" if want == got else "different"] += 1
+                    if want != got and "first_difference" not in dr:
+                        dr["first_difference"] = {"operation": w.lines[ev["ln"] - 1][:120], "model": sorted(want), "build": sorted(got)}
                 for f in ("r", "q", "g"):
                     if isinstance(ev.get(f), dict):
                         stats["res_immediate" if ev[f].get("i") else "res_allocated"] += 1
                         if ev[f].get("z"):
                             stats["res_leading_zero_places"] += 1
-        t1 = time.time()
-        with concurrent.futures.ThreadPoolExecutor(max_workers=NPROC) as ex:
-            results = list(ex.map(validate_chunk, chunks))
-        t_v = time.time() - t1
-        tot_states = 0
-        for path, n, r, res in results:
-            if r is None:
-                continue
-            if r.error or res is None or r.violated:
-                raise vlib.MachineryError("TraceBigInt did not accept %s: %s" % (os.path.basename(path), r.error or r.violated or r.out[-800:]))
-            if res["n"] != n:
-                raise vlib.MachineryError("TraceBigInt consumed %d of %d events in %s" % (res["n"], n, path))
-            if res["nfail"] >= 400:
-                chk.extra.setdefault("notes", []).append("more than 400 failing events in one chunk; list truncated")
-            tot_states += r.distinct
-            chk.states += r.distinct
-            chk.transitions += r.states
-            for f in res["fails"]:
-                ev = byln.get(f["ln"], {})
-                fails.append({"rx": rx, "ln": f["ln"], "op": f["op"], "why": f["why"], "line": w.lines[f["ln"] - 1],
-                              "fam": w.fam[f["ln"] - 1], "event": ev})
-        chk.traces += 1
-        chk.tlc_runs.append({"name": "TraceBigInt[%s radix 2^%d]" % (label, rx), "generated": tot_states, "distinct": tot_states,
-                             "wall_s": round(t_v, 2), "chunks": len(chunks), "events": nev, "driver_s": round(t_h, 2)})
+        info[rx] = {"trace": tr, "nev": nev, "t_h": t_h, "chunks": len(chunks), "states": 0}
+        jobs += [(rx, c) for c in chunks]
         chk.extra.setdefault("events_by_op", {})["%s-%d" % (label, rx)] = dict(stats)
         if rx == 7:
             pc = chk.extra.setdefault("drift", {}).setdefault("knuthD_path_labels_radix7", {})
-            for k in ("d1", "ujeqv1", "corr2", "rhatov", "addback"):
+            for k in ("d1", "ujeqv1", "iter2", "rhatov", "addback"):
                 pc[k] = pc.get(k, 0) + paths.get(k, 0)
+    t1 = time.time()
+    with concurrent.futures.ThreadPoolExecutor(max_workers=NPROC) as ex:
+        results = list(ex.map(lambda j: (j[0],) + validate_chunk(j[1]), jobs))
+    t_v = time.time() - t1
+    for rx, path, n, r, res in results:
+        if r is None:
+            continue
+        if r.error or res is None or r.violated:
+            raise vlib.MachineryError("TraceBigInt did not accept %s: %s" % (os.path.basename(path), r.error or r.violated or r.out[-800:]))
+        if res["n"] != n:
+            raise vlib.MachineryError("TraceBigInt consumed %d of %d events in %s" % (res["n"], n, path))
+        info[rx]["nfail"] = info[rx].get("nfail", 0) + res["nfail"]
+        info[rx]["states"] += r.distinct
+        chk.states += r.distinct
+        chk.transitions += r.states
+        w = worklists[rx]
+        for f in res["fails"]:
+            fails.append({"rx": rx, "ln": f["ln"], "op": f["op"], "why": f["why"], "line": w.lines[f["ln"] - 1],
+                          "fam": w.fam[f["ln"] - 1], "event": None})
+    # attach the recorded event to each failing operation (second pass over the trace, only if needed)
+    for rx, inf in info.items():
+        want = {f["ln"]: f for f in fails if f["rx"] == rx and f["event"] is None}
+        if want:
+            with open(inf["trace"]) as fh:
+                for line in fh:
+                    if line.strip():
+                        ev = json.loads(line)
+                        if ev.get("ln") in want:
+                            want[ev["ln"]]["event"] = ev
+    for _, c in jobs:
+        os.unlink(c)
+    for rx, inf in info.items():
+        chk.traces += 1
+        chk.tlc_runs.append({"name": "TraceBigInt[%s radix 2^%d]" % (label, rx), "generated": inf["states"], "distinct": inf["states"],
+                             "wall_s": round(t_v, 2), "chunks": inf["chunks"], "events": inf["nev"], "failing_events": inf.get("nfail", 0), "driver_s": round(inf["t_h"], 2)})
     return fails
+
+
+def corrupted_event_guard(chk, wdir, label="r0-32"):
+    """Non-vacuity of the validator: flip one digit of one recorded result / one boolean of one
+    comparison and require TLC to reject exactly those events."""
+    tr = os.path.join(wdir, "tr-%s.ndjson" % label)
+    picked = {}
+    with open(tr) as fh:
+        for line in fh:
+            ev = json.loads(line)
+            op = ev.get("op")
+            if op in ("times", "divide", "tostring", "cmp", "gcd") and op not in picked:
+                if op == "cmp" or (op == "tostring" and len(ev["s"]) > 3) or \
+                   (op in ("times", "gcd") and ev["r" if op == "times" else "g"]["d"]) or (op == "divide" and ev["q"]["d"] and ev["r"]["d"]):
+                    picked[op] = ev
+            if len(picked) == 5:
+                break
+    evs = []
+    for op, ev in picked.items():
+        evs.append(json.loads(json.dumps(ev)))            # the intact event must still be accepted
+        bad = json.loads(json.dumps(ev))
+        if op == "times":
+            bad["r"]["d"][0] ^= 1
+        elif op == "gcd":
+            bad["g"]["d"][0] ^= 1
+        elif op == "divide":
+            bad["r"]["d"][0] ^= 1
+        elif op == "tostring":
+            bad["s"][-1] = 48 + (bad["s"][-1] - 48 + 1) % 10
+        else:
+            bad["lt"] = not bad["lt"]
+        evs.append(bad)
+    for i, e in enumerate(evs):
+        e["ln"] = i + 1
+    path = os.path.join(wdir, "corrupt.ndjson")
+    vlib.write_ndjson(path, evs)
+    _, n, r, res = validate_chunk(path)
+    if r is None or r.error or res is None:
+        raise vlib.MachineryError("corrupted-event guard: TLC failed: %s" % (r.error if r else "no events"))
+    got = sorted(f["ln"] for f in res["fails"])
+    want = list(range(2, len(evs) + 1, 2))
+    if got != want:
+        raise vlib.MachineryError("corrupted-event guard: TraceBigInt rejected events %s, expected exactly the corrupted ones %s" % (got, want))
+    chk.extra["corrupted_event_guard"] = {"corrupted": len(want), "rejected": len(got), "ops": sorted(picked)}
 
 
 def confirm_and_report(chk, fails, exes, wdir):
@@ -229,14 +297,17 @@ def confirm_and_report(chk, fails, exes, wdir):
         return
     again = set()
     rerun = set()
+    died = ("fault (signal) inside the operation", "operation did not return")
     for rx in sorted(set(f["rx"] for f in unknown)):
-        sub = [f for f in unknown if f["rx"] == rx][:300]
+        sub = [f for f in unknown if f["rx"] == rx and f["why"] not in died][:200]
+        if not sub:
+            continue
         w = bigint_ops.WorkList(rx)
         for f in sub:
             w.lines.append(f["line"])
             w.fam.append(f["fam"])
             rerun.add((rx, f["line"]))
-        tr = run_harness(exes[rx], w.lines, rx, wdir, "confirm-%d" % rx)
+        tr = run_harness(exes[rx], w, rx, wdir, "confirm-%d" % rx)
         path, n, r, res = validate_chunk(tr)
         if r is None or r.error or res is None:
             raise vlib.MachineryError("confirmation run failed: %s" % (r.error if r else "no events"))
@@ -255,25 +326,43 @@ def confirm_and_report(chk, fails, exes, wdir):
                       key={"op": f["op"], "why": f["why"], "rx": f["rx"], "line": f["line"]})
 
 
-def run_model(chk, tier):
-    """(A) BigIntImpl refines BigZ, exhaustively at R = 4 and R = 8; returns exported path patterns."""
+MODEL_CFGS = {
+    "quick": ["BigIntImplR4", "BigIntImplR8"],
+    "thorough": ["BigIntImplR4", "BigIntImplR8all", "BigIntImplR4wide", "BigIntImplR8wide", "BigIntImplR4deep", "BigIntImplR8deep", "BigIntImplR8b3"],
+}
+PATH_CFGS = ["BigIntImplR4Paths", "BigIntImplR8Paths"]
+# labels of the model that the radix-2^7 build prints itself (bintDEBUG lines): drift comparison
+COMMON_LABELS = ("d1", "ujeqv1", "rhatov", "addback")
+
+
+def run_models(chk, tier, workers):
+    """(A) BigIntImpl refines BigZ, exhaustively at R = 4 and R = 8; then the path export.
+    Returns the exported path patterns."""
     pats = []
-    cfgs = [("BigIntImpl", "BigIntImplR4"), ("BigIntImpl", "BigIntImplR8")] if tier == "quick" else \
-           [("BigIntImpl", "BigIntImplR4"), ("BigIntImpl", "BigIntImplR8"), ("BigIntImpl", "BigIntImplR4deep"), ("BigIntImpl", "BigIntImplR8deep")]
-    for mod, cfg in cfgs:
-        if not os.path.exists(os.path.join(vlib.SPEC, cfg + ".cfg")):
-            continue
-        r = vlib.tlc(mod, cfg, workers=max(2, min(8, vlib.NCPU // 2)), timeout=1500, xmx="4g")
+    for cfg in MODEL_CFGS[tier]:
+        r = vlib.tlc("BigIntImpl", cfg, workers=workers, timeout=2400, xmx="3g")
         chk.add_tlc(cfg, r)
         if r.violated:
-            chk.violation("algorithm model: %s violated in %s" % (r.violated, cfg), r.trace_text, key={"model": "BigIntImpl", "cfg": cfg, "inv": r.violated})
+            chk.violation("algorithm model of bigint.c does not refine the integers: %s violated in %s" % (r.violated, cfg),
+                          r.trace_text, key={"model": "BigIntImpl", "cfg": cfg, "inv": r.violated})
+    for cfg in PATH_CFGS:
+        r = vlib.tlc("BigIntImpl", cfg, workers=workers, timeout=1200, xmx="3g")
+        chk.add_tlc(cfg, r)
+        n0 = len(pats)
         for p in r.printed:
             try:
                 d = json.loads(p)
             except ValueError:
                 continue
-            if isinstance(d, dict) and "path" in d:
+            if isinstance(d, dict) and "path" in d and "op" in d:
                 pats.append(d)
+        if len(pats) == n0:
+            raise vlib.MachineryError("%s exported no path patterns" % cfg)
+    labels = set(l for p in pats for l in p["path"])
+    need = {"fast", "half", "n1", "ult", "d1", "dnorm", "dcarry", "ujeqv1", "corr1", "corr2", "rhatov", "addback", "carryout",
+            "ripple", "borrowripple", "shrinks", "swap", "topzero", "res.imm", "res.sto", "q.sto", "r.sto", "nn", "np", "pn", "pp"}
+    if need - labels:
+        raise vlib.MachineryError("algorithm model never reached the paths %s" % sorted(need - labels))
     return pats
 
 
@@ -296,27 +385,33 @@ def run(chk, tier):
     # oracle guard and algorithm model run while the drivers and trace validation are busy
     pool = concurrent.futures.ThreadPoolExecutor(max_workers=2)
     fut_oracle = pool.submit(lambda: vlib.tlc("BigZCheck", "BigZCheckQuick" if quick else "BigZCheck",
-                                               workers=4 if quick else 8, timeout=1500, xmx="2g"))
+                                               workers=3 if quick else 6, timeout=2400, xmx="2g"))
+    fut_model = pool.submit(run_models, chk, tier, 4 if quick else 6)
 
-    rounds = 1 if quick else int(os.environ.get("VERIF_C11_ROUNDS", "3"))
+    rounds = 1 if quick else int(os.environ.get("VERIF_C11_ROUNDS", "4"))
     all_fails = []
-    t_budget = time.time() + (100 if quick else 1500)
+    t_budget = time.time() + (100 if quick else 1100)
     for rnd in range(rounds):
         wls = {rx: bigint_ops.generate(rx, tier, chk.seed + 7919 * rnd) for rx in (32, 7)}
+        if rnd == 0:
+            for ln in wls[32].lines[:1] + [l for l in wls[32].lines if l.startswith("divide")][:2] + [l for l in wls[7].lines if l.startswith("gcd")][:1]:
+                chk.sample({"operation": ln[:160]})
         all_fails += validate_worklists(chk, wls, exes, wdir, "r%d" % rnd)
-        for rx in wls:
-            for ln in wls[rx].lines[:2] if rnd == 0 and rx == 32 else ():
-                chk.sample({"radix": rx, "operation": ln[:120]})
+        if rnd == 0:
+            corrupted_event_guard(chk, wdir)
+        for rx in (32, 7):
+            for f in ("tr-r%d-%d.ndjson" % (rnd, rx), "wl-r%d-%d.txt" % (rnd, rx)):
+                if os.path.exists(os.path.join(wdir, f)):
+                    os.unlink(os.path.join(wdir, f))
         if time.time() > t_budget:
             break
 
-    # (A) + (B): algorithm model, then its path patterns instantiated at the real radices
-    pats = run_model(chk, tier)
-    if pats and hasattr(bigint_ops, "from_patterns"):
-        wls = {rx: bigint_ops.from_patterns(pats, rx, chk.seed, tier) for rx in (32, 7)}
-        chk.extra["path_patterns"] = {"exported": len(pats), "distinct_paths": len(set(p["path"] for p in pats))}
-        all_fails += validate_worklists(chk, wls, exes, wdir, "paths")
-        chk.sample({"path_pattern": pats[0]})
+    # (B): the model's path patterns instantiated at the real radices
+    pats = fut_model.result()
+    wls = {rx: bigint_ops.from_patterns(pats, rx, chk.seed, tier) for rx in (32, 7)}
+    chk.extra["path_patterns"] = {"exported": len(pats), "distinct_paths": len(set((p["op"], tuple(sorted(p["path"]))) for p in pats))}
+    chk.sample({"path_pattern": pats[0]})
+    all_fails += validate_worklists(chk, wls, exes, wdir, "paths")
 
     r = fut_oracle.result()
     chk.add_tlc("BigZCheck", r)
@@ -342,7 +437,10 @@ def replay(d):
     b = vlib.vbuild()
     exes = build_harnesses(b)
     wdir = vlib.scratch("c11r")
-    tr = run_harness(exes[det["rx"]], [det["line"]], det["rx"], wdir, "replay")
+    w = bigint_ops.WorkList(det["rx"])
+    w.lines.append(det["line"])
+    w.fam.append("replay")
+    tr = run_harness(exes[det["rx"]], w, det["rx"], wdir, "replay")
     print(open(tr).read())
     path, n, r, res = validate_chunk(tr)
     print(json.dumps(res, indent=1))
